@@ -65,6 +65,7 @@ UNITS['ordered'] = dict(
     value_records=['VArg', 'QEvent', 'UserCompare', 'DefaultCompare'],
     opaque_records=['VArg', 'UserCompare', 'QEvent'],
     ghost_sig=[], fn_tag_default='QEvent', alt_names={OQD: ['OrderedQueueList<BufferedItem<QEvent>>']},
+    param_names={'OQL_splice': ['pos', 'other'], 'OQLD_splice': ['pos', 'other'], 'OQL_splice_2': ['pos', 'other', 'it'], 'OQLD_splice_2': ['pos', 'other', 'it']},
     type_rules=[
       (r'^std::(__cxx11::)?list<', 'list', 'WList'),
       (r'^std::_List_(const_)?iterator<', 'listit', 'WIt'),
